@@ -232,12 +232,16 @@ func c01Run(c *Ctx) {
 	names := []string{"a", "b", "c", "d", "e", "f", "g", "h", "j"}
 
 	// flat sequence: operands and operators; "?" contributes "? operand :"
+	sameVar := false // when set, every operand is the same variable holding vals[0] (side effects of ++/-- would show)
 	buildFlat := func(ops []string, vals []Val, asVar uint, deco []string) ([]Tok, map[string]Val) {
 		var toks []Tok
 		vars := map[string]Val{}
 		n := 0
 		operand := func() {
 			v := vals[n%len(vals)]
+			if sameVar {
+				v = vals[0]
+			}
 			d := ""
 			if deco != nil {
 				d = deco[n%len(deco)]
@@ -245,7 +249,10 @@ func c01Run(c *Ctx) {
 			if d == "-" || d == "!" {
 				toks = append(toks, tOp(d))
 			}
-			if asVar&(1<<uint(n)) != 0 {
+			if sameVar {
+				toks = append(toks, tID("a"))
+				vars["a"] = v
+			} else if asVar&(1<<uint(n)) != 0 {
 				toks = append(toks, tID(names[n]))
 				vars[names[n]] = v
 			} else {
@@ -421,6 +428,15 @@ func c01Run(c *Ctx) {
 							if !do(cs) {
 								return false
 							}
+						}
+						// the same variable in every operand position: ++/-- must not change what later operands read
+						sameVar = true
+						toks, vars := buildFlat(ops, sets[si].vals, 0, deco)
+						sameVar = false
+						cs := c01Case{Mode: "deco-same-variable", Toks: toks, Vars: vars, Ops: opsName, Wrap: "print", Layout: 1}
+						c.Case(true)
+						if !do(cs) {
+							return false
 						}
 					}
 					return true
